@@ -1,7 +1,7 @@
 //! Runs one managed-pool scenario: main phase under the controller, then the
 //! deterministic epilogue (drain, return everything, probes, final checks).
 
-use crate::common::Outcome;
+use simcore::common::Outcome;
 
 use crate::engine::{
     self, begin_run, end_run, Decision, Resume, RunEnd, RunStats, Sim, SimInfo, Violation, World,
@@ -77,7 +77,7 @@ pub fn run_scenario(sc: &MScenario, replay: Option<Vec<Decision>>, trace: bool) 
             }
             if violation.is_none() && diverged.is_none() {
                 if step_cap_hit && sc.profile == "C02" {
-                    violation = Some(Violation::new(
+                    violation = Some(crate::engine::violation(
                         "C02",
                         "no_progress",
                         format!("step cap of {} reached with unfinished operations", sc.knobs.step_cap),
@@ -94,7 +94,7 @@ pub fn run_scenario(sc: &MScenario, replay: Option<Vec<Decision>>, trace: bool) 
             let expected = (sc.pool.wait.is_some() || sc.pool.create.is_some() || sc.pool.recycle.is_some())
                 && !sc.pool.runtime;
             if !expected {
-                violation = Some(Violation::new(
+                violation = Some(crate::engine::violation(
                     "C10",
                     "build_error_unexpected",
                     "build() reported NoRuntimeSpecified although no pool-level timeout is configured or a runtime is set".into(),
@@ -144,7 +144,7 @@ pub fn run_scenario(sc: &MScenario, replay: Option<Vec<Decision>>, trace: bool) 
         .abstract_states
         .keys()
         .map(|k| {
-            crate::rng::mix(&[
+            simcore::rng::mix(&[
                 k.0 as u64, k.1 as u64, k.2 as u64, k.3 as u64, k.4 as u64, k.5 as u64, k.6 as u64,
             ])
         })
@@ -231,7 +231,7 @@ fn epilogue(sc: &MScenario, sim: &mut Sim, h: &mut MHandle) -> Option<Violation>
             return Some(v);
         }
         Err(None) => {
-            return Some(Violation::new(
+            return Some(crate::engine::violation(
                 &sc.profile,
                 "no_progress",
                 "actors could not be drained within the epilogue's step budget".into(),
